@@ -23,6 +23,7 @@ import ChibiVerif.Lemmas.C13Init
 import ChibiVerif.Lemmas.C13Literals
 import ChibiVerif.Lemmas.C13Member
 import ChibiVerif.Lemmas.C13PP
+import ChibiVerif.Lemmas.LayoutTotal
 import ChibiVerif.Props.C09
 
 namespace ChibiVerif.Props.C13
@@ -57,6 +58,20 @@ theorem C13_layout_nocrash (packed : Bool) (a0 : Int) (ms : List Mem) (ha : 0 < 
 -- non-vacuity: `struct __attribute__((aligned(2))) { char a; int b : 40; long : 0; int c[0]; }`
 example : (0 : Int) < 2 ∧ ([⟨1, 1, none, true⟩, ⟨4, 4, some 40, true⟩, ⟨8, 8, some 0, false⟩, ⟨0, 4, none, true⟩] : List Mem).any
     (memDivSite false) = false := by decide
+
+/-- **Every type description is answered with a layout or one of the two located diagnostics** (corollary of C08's
+    `Lemmas/LayoutTotal`, on the model that follows the parser's checks of fixes 04ba5b8 / fb20c9b / 33adb94): for every
+    description — any nesting, `packed`, `aligned(n)`, `_Alignas` with constant or type operands, bit-fields of any declared
+    type and width, arrays of any (also negative) length — `declarator`/`struct_members`/`struct_decl`/`union_decl` never
+    divide by zero (32-bit wrap-around of `align * 8` included); they succeed exactly on the descriptions the two checks
+    accept, and otherwise answer "alignment must be a power of two no larger than 2^28" or "bit-field has non-integer type". -/
+theorem C13_layout_total (t : Ty) :
+    t.layout ≠ .error .divByZero ∧ ((∃ l, t.layout = .ok l) ↔ t.accepted = true) ∧
+    (t.accepted = false → t.layout = .error .badAlign ∨ t.layout = .error .bitfieldType) :=
+  ⟨layout_ne_divByZero t, layout_ok_iff t, layout_diag_of_not_accepted t⟩
+
+example : (Ty.struct false (some 3) .nil).accepted = false ∧ (Ty.struct false (some 3) .nil).layout = .error .badAlign ∧
+    (Ty.struct false none (.cons ⟨some 1, true⟩ .nil (.struct false none .nil) .nil)).layout = .error .bitfieldType := by decide
 
 end Layout
 
